@@ -38,9 +38,11 @@ type LifeScenario struct {
 	Reconnect          string `json:"reconnect"`     // "" | handler | goroutine
 	Cycles             int    `json:"cycles"`
 	GoMaxProcs         int    `json:"gomaxprocs"`
-	BacklogKind        string `json:"backlog_kind"`         // "" (NOTICE lines) | mixed (001 / 433 / JOIN / 352 / MODE: lines whose built-in handlers use Me() and the tracker)
-	ConnectDuringClose bool   `json:"connect_during_close"` // another goroutine calls Connect while Close is waiting for a running handler
-	HandlerPanics      bool   `json:"handler_panics"`       // the gated handler panics (default LogPanic recovery) once released, i.e. during the teardown
+	BacklogKind        string `json:"backlog_kind"`           // "" (NOTICE lines) | mixed (001 / 433 / JOIN / 352 / MODE: lines whose built-in handlers use Me() and the tracker)
+	ConnectDuringClose bool   `json:"connect_during_close"`   // another goroutine calls Connect while Close is waiting for a running handler
+	SlowCloseMs        int    `json:"slow_close_ms"`          // closing the socket takes this long (the ping ticker keeps firing meanwhile)
+	HandlerAsksFlag    bool   `json:"handler_asks_connected"` // the gated handler calls Connected() once released, i.e. while the teardown is in progress
+	HandlerPanics      bool   `json:"handler_panics"`         // the gated handler panics (default LogPanic recovery) once released, i.e. during the teardown
 }
 
 type LifeResult struct {
@@ -163,6 +165,7 @@ func runLifeScenario(sc LifeScenario) LifeResult {
 			return
 		}
 		do := func() {
+			lg.add("connect-call")
 			err := c.Connect()
 			if err == nil {
 				lg.add("connect-ret ok")
@@ -181,6 +184,9 @@ func runLifeScenario(sc LifeScenario) LifeResult {
 		if l.Text() == "gate" {
 			entered <- struct{}{}
 			<-gate
+			if sc.HandlerAsksFlag {
+				_ = c.Connected() // a handler may ask at any time (C06 samples it inside handlers); it must not wedge the teardown
+			}
 			if sc.OutFrom == "handler" {
 				for i := 0; i < sc.OutBacklog; i++ {
 					c.Privmsg("#c", fmt.Sprintf("out %d", i))
@@ -192,11 +198,24 @@ func runLifeScenario(sc LifeScenario) LifeResult {
 		}
 	})
 
+	// every backlog line is sent on the first connection: once that connection's DISCONNECTED has been delivered,
+	// none of them may reach a handler any more (a later connection starts from empty queues)
+	var staleOnce sync.Once
+	stale := func(_ *client.Conn, l *client.Line) {
+		if lg.count("DISCONNECTED") >= 1 && l.Text() != "gate" {
+			staleOnce.Do(func() { lg.add("stale-line dispatched after DISCONNECTED: %s", l.Raw) })
+		}
+	}
+	for _, ev := range []string{"NOTICE", "JOIN", "352", "433", "MODE"} {
+		conn.HandleFunc(ev, stale)
+	}
+
 	var ctx context.Context = context.Background()
 	cancel := func() {}
 	if sc.UseCtx || strings.Contains(sc.Cause, "cancel") {
 		ctx, cancel = context.WithCancel(context.Background())
 	}
+	lg.add("connect-call")
 	err := conn.ConnectContext(ctx)
 	if err != nil {
 		lg.add("connect-ret err")
@@ -206,6 +225,9 @@ func runLifeScenario(sc LifeScenario) LifeResult {
 	}
 	lg.add("connect-ret ok")
 	srv := <-conns
+	if sc.SlowCloseMs > 0 {
+		srv.SetCloseDelay(time.Duration(sc.SlowCloseMs) * time.Millisecond)
+	}
 	sess := &session{conn: conn, srv: srv}
 	srv.SendLine(":irc.test 001 me :Welcome me!ident@host")
 	for i := 0; i < sc.AfterLines; i++ {
@@ -238,7 +260,7 @@ func runLifeScenario(sc LifeScenario) LifeResult {
 		gw = srv.GateWrites()
 	}
 	// backlog
-	if sc.InBacklog > 0 || sc.HandlerPanics || (sc.OutBacklog > 0 && sc.OutFrom == "handler") {
+	if sc.InBacklog > 0 || sc.HandlerPanics || sc.HandlerAsksFlag || (sc.OutBacklog > 0 && sc.OutFrom == "handler") {
 		srv.SendLine(":n!u@h PRIVMSG me :gate")
 		select {
 		case <-entered:
@@ -315,6 +337,7 @@ func runLifeScenario(sc LifeScenario) LifeResult {
 		time.Sleep(3 * time.Millisecond)
 		connected2 := make(chan error, 1)
 		go func() {
+			lg.add("connect-call")
 			err := conn.Connect()
 			if err == nil {
 				lg.add("connect-ret ok")
@@ -411,6 +434,10 @@ func runLifeScenario(sc LifeScenario) LifeResult {
 		gs := libGoroutines()
 		res.Stuck = strings.Join(gs, " | ")
 		res.Log = append([]string(nil), lg.evs...)
+		if os.Getenv("VERIF_FULLDUMP") != "" {
+			buf := make([]byte, 1<<20)
+			res.Notes = append(res.Notes, string(buf[:runtime.Stack(buf, true)]))
+		}
 		return res
 	}
 	// reconnects: handle every attempt the DISCONNECTED handler made
@@ -447,10 +474,19 @@ func runLifeScenario(sc LifeScenario) LifeResult {
 		s2 := &session{conn: conn, srv: reconnectSrv}
 		reconnectSrv.WaitLines(2, 2*time.Second)
 		res.Transcript = reconnectSrv.Lines()
+
 		reconnectSrv.SendLine(":irc.test 001 me :Welcome me!ident@host")
 		ok1 := s2.sync(2 * time.Second)
 		time.Sleep(60 * time.Millisecond)
 		ok2 := s2.sync(2 * time.Second)
+		for _, l := range reconnectSrv.Lines() {
+			// output queued on the previous connection by handlers (which all returned before its teardown finished):
+			// "out N" from the gated handler, MODE / WHO #c from the built-in JOIN handler
+			if strings.HasPrefix(l, "PRIVMSG #c :out ") || l == "MODE #c" || l == "WHO #c" {
+				lg.add("stale-output on the fresh connection: %s", l)
+				break
+			}
+		}
 		switch {
 		case !conn.Connected() || reconnectSrv.Closed():
 			// nothing has ended this connection, yet it is gone: not a timing verdict
